@@ -237,6 +237,11 @@ class Family:
                     d = dotted(n.value)
                     if d and len(d) == 2:
                         return d[1]
+                    # bool(self._dirty) and the like: the one field of the object the returned expression reads
+                    flds = {x.attr for x in ast.walk(n.value) if isinstance(x, ast.Attribute) and isinstance(x.value, ast.Name)
+                            and x.value.id == f.self_name}
+                    if len(flds) == 1:
+                        return next(iter(flds))
         raise AnalysisError("dirty property of BaseRandomLineAccessFile not found")
 
 
